@@ -33,6 +33,18 @@ _LOADER = None
 _OSETS = None
 
 
+def _quiet_package_logging():
+    """Native readings run the real package: keep its log output (warnings about unknown ids etc.) off the check's stderr."""
+    import logging
+    lg = logging.getLogger("pyairtouch")
+    lg.addHandler(logging.NullHandler())
+    lg.propagate = False
+    logging.getLogger("asyncio").setLevel(logging.CRITICAL)
+
+
+_quiet_package_logging()
+
+
 def build_loader():
     L = Loader(REPO)
     for f in sorted(glob.glob(os.path.join(REPO, "pyairtouch", "**", "*.py"), recursive=True)):
